@@ -59,6 +59,8 @@ def build_graph(case):
                 o.payload = ["x", i, ("t", i)]
             if case.get("big") and i % 4 == 0:
                 o.blob = "b" * 70000
+    H.install_main_classes()
+    H.MainV.ROOT = next((o for o in w.objs if type(o) is H.MainV), None) if case.get("main_root") else None
     root = w.objs[case["u"]]
     # the dump may start anywhere in the graph: the universe, one of its vertices (the universe is then reached through the
     # vertex), or a link
@@ -128,11 +130,15 @@ class RoundTrip(Leg):
                     ops.append(["UAV", u, u])
                 if vids and rng.random() < 0.5:
                     ops.append(["NE", "KDir", rng.choice(vids), u2])
+            main_root = False
+            if rng.random() < 0.25:     # vertices of a class living in __main__ (by value), sometimes with a class attribute into the graph
+                ops = [([op[0], 5] + op[2:]) if op[0] == "NV" and len(op) == 4 and rng.random() < 0.6 else op for op in ops]
+                main_root = rng.random() < 0.5
             if rng.random() < 0.3:      # vertices of a class that dill must pickle by value (defined in a function, uses super())
                 ops = [([op[0], 4] + op[2:]) if op[0] == "NV" and len(op) == 4 and rng.random() < 0.5 else op for op in ops]
             if rng.random() < 0.3:      # vertices with value semantics (__eq__ / __hash__ on the uid)
                 ops = [([op[0], 3] + op[2:]) if op[0] == "NV" and len(op) == 4 and rng.random() < 0.7 else op for op in ops]
-            yield {"ops": ops, "u": u, "root": rng.choice(["universe", "universe", "vertex", "link"]),
+            yield {"ops": ops, "u": u, "root": rng.choice(["universe", "universe", "vertex", "link"]), "main_root": main_root,
                    "proto": rng.choice([0, 1, 2, 3, 4, 5, None]), "warm": rng.choice([False, True, "filtered", "filtered"]),
                    "cache_dump": rng.random() < 0.5, "cache_load": rng.random() < 0.6, "big": rng.random() < 0.2,
                    "fresh": i % 4 == 0}
@@ -184,7 +190,9 @@ class RoundTrip(Leg):
                     problems.append(f"copy loaded with {loader}: {stale}")
                 if PS.snapshot(root) != orig_snap:
                     problems.append(f"editing the copy loaded with {loader} changed the original")
-            if case["fresh"]:
+            # (vertices of a class living in THIS process's __main__ are loaded in-process only: dill writes parts of such a
+            # class by reference, which another interpreter's __main__ cannot resolve - with nrpickler and with plain dill alike)
+            if case["fresh"] and not any(type(o) is H.MainV for o in w.objs):
                 for loader in ("pickle", "dill"):
                     r = fresh_load(data, loader, case["cache_load"])
                     if "error" in r:
@@ -197,6 +205,7 @@ class RoundTrip(Leg):
                     if r.get("stale"):
                         problems.append(f"fresh interpreter ({loader}): {r['stale']}")
         finally:
+            H.MainV.ROOT = None
             w.close()
         return {"problems": problems}
 
@@ -292,6 +301,8 @@ class Depth(Leg):
     def generate(self, rng, n):
         for length in [50, 1000, 6000, 500, 20000, 10000][:n]:
             yield {"length": length}
+        # a script-level vertex class (pickled by value) that keeps a class attribute pointing into the chain
+        yield {"length": 600, "main_root": True}
 
     def observe(self, case):
         script = r'''
@@ -301,7 +312,13 @@ from edgegraph.structure import Vertex, Universe
 from edgegraph.builder import explicit
 from edgegraph.output import nrpickler
 n = %d
-vs = [Vertex(attributes={"i": i}) for i in range(n)]
+class Item(Vertex):
+    ROOT = None
+    def __init__(self, **k):
+        super().__init__(**k)
+VCLS = Item if %r else Vertex
+vs = [VCLS(attributes={"i": i}) for i in range(n)]
+Item.ROOT = vs[0] if VCLS is Item else None
 for a, b in zip(vs, vs[1:]):
     explicit.link_directed(a, b)
 u = Universe(vertices=vs)
@@ -326,7 +343,7 @@ sys.setrecursionlimit(100000)
 c = pickle.loads(data)
 ok = len(c.vertices) == n and [v.i for v in c.vertices] == list(range(n)) and all(len(v.links) in (1, 2) for v in c.vertices)
 print(depth["max"], int(ok))
-''' % (str(C.REPO), case["length"])
+''' % (str(C.REPO), case["length"], bool(case.get("main_root")))
         p = subprocess.run([sys.executable, "-c", script], stdout=subprocess.PIPE, stderr=subprocess.PIPE, text=True, timeout=600)
         if p.returncode != 0:
             return {"error": (p.stderr.strip().splitlines() or ["?"])[-1]}
@@ -335,7 +352,8 @@ print(depth["max"], int(ok))
 
     def oracle(self, case, obs):
         if "error" in obs:
-            return [f"chain of {case['length']} vertices under recursion limit 400: {obs['error']}"]
+            what = "vertices of a __main__ class whose class attribute points at the first one" if case.get("main_root") else "vertices"
+            return [f"chain of {case['length']} {what} under recursion limit 400: {obs['error']}"]
         m = []
         if not obs["ok"]:
             m.append(f"chain of {case['length']} vertices did not round-trip")
@@ -453,8 +471,9 @@ class Scheduler(Leg):
     name = "sched"
     imports = "From EG Require Import Base Pickler."
     checkfn = "pcheck2"
-    case_type = "list ((nat * nat) * list action) * nat * (nat * list nat)"
-    rule = ("small random graphs: dill's own recursive save() is traced into per-invocation action lists (write / memoize / save "
+    case_type = "list ((nat * nat) * list action) * list nat * nat * (nat * list nat)"
+    rule = ("small random graphs (4 in 10 with vertices of a by-value class, whose classes and functions the repaired pickler saves "
+            "atomically: their object ids are the model's `atomic` set): dill's own recursive save() is traced into per-invocation action lists (write / memoize / save "
             "child, keyed by memo length at entry and object), which become the model's `expand` table; the model's queue scheduler "
             "AND its recursive saver must then both produce exactly the chunk stream (PUT/MEMOIZE positions included) and memo "
             "length observed on the real _NonrecursivePickler; protocols 0-5")
@@ -468,6 +487,8 @@ class Scheduler(Leg):
             members = [v for v in vids if rng.random() < 0.8] or [vids[0]]
             u = sum({"NV": 1, "NE": 1, "NL": 1, "NU": 2}.get(op[0], 0) for op in ops)
             ops.append(["NU", members, None])
+            if rng.random() < 0.4:
+                ops = [([op[0], 4] + op[2:]) if op[0] == "NV" and len(op) == 4 and rng.random() < 0.7 else op for op in ops]
             yield {"ops": ops, "u": u, "proto": rng.randrange(6), "warm": False, "cache_dump": False}
 
     def observe(self, case):
@@ -475,7 +496,9 @@ class Scheduler(Leg):
         try:
             T, table, top = trace_recursive(root, case["proto"])
             stream, mlen = trace_nonrecursive(root, case["proto"], T)
-            return {"table": [[list(k), body] for k, body in table], "top": top, "stream": stream, "mlen": mlen}
+            import types
+            atoms = [i for i, o in enumerate(T.keep) if isinstance(o, (type, types.FunctionType))]
+            return {"table": [[list(k), body] for k, body in table], "top": top, "stream": stream, "mlen": mlen, "atoms": atoms}
         except Exception as e:  # noqa: BLE001
             return {"error": f"{type(e).__name__}: {e}"}
         finally:
@@ -503,7 +526,7 @@ class Scheduler(Leg):
         # (the harness's stream ends with STOP; the model's root body gets a trailing Write of that chunk)
         stop = obs["stream"][-1]
         table[0] = f"((0, {ROOT}), {C.clist([act(a) for a in top] + [f'Write {stop}'], str)})"
-        return f"({C.clist(table, str)}, {ROOT}, ({obs['mlen']}, {H.c_ids(obs['stream'])}))"
+        return f"({C.clist(table, str)}, {H.c_ids(obs.get('atoms', []))}, {ROOT}, ({obs['mlen']}, {H.c_ids(obs['stream'])}))"
 
     def nontrivial(self, case, obs):
         return "error" not in obs and obs["mlen"] >= 5
